@@ -14,6 +14,7 @@ consist of fresh objects all the way down.
 """
 
 import copy
+import os
 import random
 
 from vmon import canon
@@ -38,7 +39,7 @@ REACH = {"quick": {"editing-calls": 3000, "deepcopy-cuts": 1000, "warn-once-seco
 
 WARNING = "Warning: A successor has modified the shared dicts"
 HANDON = ["filter", "filter_out", "sort", "unique", "head", "tail", "slice", "copy", "reverse", "sample", "semi_join", "anti_join", "drop_na",
-          "append", "extend", "add", "mul", "chain", "chain", "group_by"]
+          "append", "extend", "add", "mul", "chain", "chain", "group_by", "probe_aggregate", "probe_write_csv", "probe_to_json", "probe_to_data_frame"]
 EDIT = ["modify", "modify_if", "rename", "select", "unselect", "fill_missing_keys", "fill_missing_keys_noarg", "inner_join", "left_join"]
 
 def generate(rng, tier):
@@ -166,6 +167,28 @@ def execute(case):
                 elif op in ("semi_join", "anti_join"):
                     out = getattr(lst, op)(other, join_by[0]) if all("k" in x for x in _items(lst)) else lst.copy()
                 elif op == "drop_na": out = lst.drop_na("k")
+                elif op == "probe_aggregate":
+                    # a summary function that edits the group-wise list it is handed: that list is the function's own, the receiver's items stay as they are
+                    if n and all("k" in x for x in _items(lst)):
+                        lst.group_by("k").aggregate(m=lambda x: x.modify(zz9=lambda i: 1).pluck("zz9")[0] if len(x) else 0, f=lambda x: x[0])
+                    else:
+                        lst.pluck("_tag_")
+                    out = None
+                elif op == "probe_write_csv":
+                    # writers and converters are non-modifying too, also for items with different key sets
+                    if n:
+                        lst.write_csv(os.path.join(os.environ.get("VERIF_SCRATCH") or "/tmp", f"c17_{os.getpid()}.csv"))
+                    else:
+                        lst.pluck("_tag_")
+                    out = None
+                elif op == "probe_to_json":
+                    lst.to_json(); out = None
+                elif op == "probe_to_data_frame":
+                    try:
+                        lst.to_data_frame() if n else lst.pluck("_tag_")
+                    except (ValueError, TypeError):
+                        pass        # items with nested list values do not make a frame: not this property's subject
+                    out = None
                 elif op == "group_by":
                     # marks the list for grouped operations; whatever it returns (the list itself or another list of the same items) stays in the history
                     out = lst.group_by("k") if all("k" in x for x in _items(lst)) else lst.copy()
